@@ -335,7 +335,20 @@ func (server *Server) registerCoreExecutors() {
 		if err != nil {
 			return nil, err
 		}
-		return server.userCommandHandler.Set(conn, key, val, opt)
+		msg, err := server.userCommandHandler.Set(conn, key, val, opt)
+		if err != nil || msg == nil {
+			return msg, err
+		}
+		// The handler cannot tell SETNX from SET with NX. A handler that
+		// answers like SET NX (OK, or nil when the key exists) gets its
+		// answer translated into the integer reply of SETNX.
+		if msg.IsNil() {
+			return NewIntegerMessage(0), nil
+		}
+		if str, strErr := msg.String(); strErr == nil && msg.IsString() && str == OK {
+			return NewIntegerMessage(1), nil
+		}
+		return msg, nil
 	})
 
 	// Hash commands.
